@@ -37,6 +37,7 @@ type SeqSpec struct {
 	// Key overrides the canonical state key (default: model + disk + allocator cursors)
 	Key func(w *World) string
 	ICacheSz uint64
+	ViaXDR   bool
 }
 
 var seqSpecs = map[string]*SeqSpec{}
@@ -209,6 +210,7 @@ func seqExpand(raw json.RawMessage) (interface{}, error) {
 			w := NewWorld(img)
 			w.Model.StrictStale = spec.Strict
 			w.Model.AllowImplFail = spec.AllowImplFail
+			w.ViaXDR = spec.ViaXDR
 			if spec.NoUnstable {
 				w.Unstable = false
 				w.Srv.Unstable = false
